@@ -416,7 +416,8 @@ class G:
             src = 0
             K = TOKEN_BASE + self.pick([3, 5, 8])
             u = self.add({'op': 'unique', 'up': [src]}, INT)
-            g = self.add({'op': 'map', 'up': [u], 'fn': ['grow', K]}, ('var', 0, INT))
+            fn = ['grow', K] if self.chance(0.5) else ['growback', K, TOKEN_BASE]
+            g = self.add({'op': 'map', 'up': [u], 'fn': fn}, ('var', 0, INT))
             fl = self.add({'op': 'flatten', 'up': [g]}, INT)
             feedback.append({'from': fl, 'to': src})
         target = r.randrange(1, 11 if big else 8)
